@@ -3,9 +3,9 @@ from props import seqcases, C02 as _C02
 
 LEVEL = "other"
 TECHNIQUE = "bounded inductive contract check (CBMC) on the real container operations over an element model with a finalisation ledger / exceptional postconditions"
-LEVEL_TEXT = "placeholder"
-NOTE = "placeholder"
-EXPLANATION = "K3"
+LEVEL_TEXT = 'Cursor protocol of Array, List, Tuple and Table checked on arbitrary well-formed containers of bounded size: forward iteration yields element i at step i and ends with Terminal after len items, backward is the exact reverse, the cursor never leaves the allocation. Range/Slice/Zip/Filter/Map views are not under contract yet.'
+NOTE = 'bounded sizes as in C02/C04; Tuple with a repeated item is a listed known finding'
+EXPLANATION = LEVEL_TEXT
 TRUSTED = []
 
 def jobs(tier):
